@@ -149,11 +149,61 @@ class Fn:
         return target not in self.reachable(removed_edges={edge})
 
     def block_dominates(self, a, target):
-        if a == target:
-            return True
         if target not in self.reach_all():
             return False
-        return target not in self.reachable(removed_blocks={a})
+        return a in self.doms().get(target, ())
+
+    def doms(self):
+        """block -> set of dominating blocks (iterative dataflow)."""
+        d = self.__dict__.get("_doms")
+        if d is not None:
+            return d
+        reach = self.reach_all()
+        preds = self.preds()
+        allb = set(reach)
+        d = {b: set(allb) for b in reach}
+        d[self.entry] = {self.entry}
+        order = sorted(reach, reverse=True)   # clang numbers entry highest
+        changed = True
+        while changed:
+            changed = False
+            for b in order:
+                if b == self.entry:
+                    continue
+                ps = [p for p in preds.get(b, []) if p in reach]
+                new = set(allb)
+                for p in ps:
+                    new &= d[p]
+                new.add(b)
+                if new != d[b]:
+                    d[b] = new
+                    changed = True
+        self._doms = d
+        return d
+
+    def loops(self):
+        """Natural loops: list of (header, set(body blocks), [latches])."""
+        l = self.__dict__.get("_loops")
+        if l is not None:
+            return l
+        d = self.doms()
+        preds = self.preds()
+        by_header = {}
+        for b in self.reach_all():
+            for s in self.succs(b):
+                if s in d.get(b, ()):       # back edge b -> s
+                    body = by_header.setdefault(s, ({s}, []))
+                    body[1].append(b)
+                    stack = [b]
+                    while stack:
+                        x = stack.pop()
+                        if x in body[0]:
+                            continue
+                        body[0].add(x)
+                        stack.extend(p for p in preds.get(x, []) if p in d)
+        l = [(h, bl[0], bl[1]) for h, bl in by_header.items()]
+        self._loops = l
+        return l
 
     # -- events / nodes --------------------------------------------------
     def events(self):
